@@ -165,6 +165,13 @@ func c10Script(b c10Base) func(r *svRig, step int) *SAct {
 }
 
 func TestC10(t *testing.T) {
+	shard, nShards, child := svSharded(t, "TestC10", 8, func(idx int, wedged bool) string {
+		return fmt.Sprintf("C10Dead %s", coqBool(wedged))
+	})
+	if !child {
+		return
+	}
+	want := func(idx int) bool { return want(idx) && idx%nShards == shard }
 	em := NewEmitter()
 	defer em.Close()
 	idx := 0
